@@ -7,6 +7,7 @@
    vectors and the mask as a list of points.  The bridge:
      img2 / img3   the model's view of a nested-list image (same total read, 0 outside)
      col d mpts    column d of the list of mask points  (np.asarray(mask.nonzero())[d])
+     r2m / x2m     the size weights of the mask points, as refine_com_arr prepares them
      write_cells   results[feat, k] = v  for a list of (k, v), in order
      feats         the kernel's outer loop `for feat in range(N)`: one model run per
                    feature, each writing its row; a division by zero aborts everything *)
@@ -18,6 +19,12 @@ Open Scope Z_scope.
 Definition img2 (image : list (list Z)) (idx : list Z) : Z := get2 image (ix idx 0) (ix idx 1).
 Definition img3 (image : list (list (list Z))) (idx : list Z) : Z := get3 image (ix idx 0) (ix idx 1) (ix idx 2).
 Definition col (d : nat) (mpts : list (list Z)) : list Z := map (fun p => ix p d) mpts.
+
+(* the weight vectors refine_com_arr prepares: r_squared_mask(radius, ndim)[mask] and
+   image.ndim * x_squared_masks(radius, ndim)[d][mask] *)
+Definition r2m (radius : list Z) : list Z := map (r_squared_mask radius) (mask_points radius).
+Definition x2m (radius : list Z) (d : nat) : list Z :=
+  map (fun p => Z.of_nat (length radius) * x_squared_mask radius d p) (mask_points radius).
 
 Definition write_cells (results : list (list cell)) (feat : Z) (cells : list (Z * cell)) : list (list cell) :=
   fold_left (fun r kc => set2 r feat (fst kc) (snd kc)) cells results.
